@@ -233,6 +233,16 @@ fn emit_case(out: &mut Out, rng: &mut Rng, models: &[TableDef], history: &[Migra
                 }
             }
             oracles.insert("c08".into(), json!({"ok": ok8}));
+            // O-C14: (a) the planner is equivariant under literal renaming; (b) with_prefix equals literal renaming
+            let pfx = "app_";
+            let lb: Vec<TableDef> = b.iter().map(|t| gener::literal_table(pfx, t)).collect();
+            let lm: Vec<TableDef> = models.iter().map(|t| gener::literal_table(pfx, t)).collect();
+            let lit_plan: Vec<MigrationAction> = p.actions.iter().map(|a| gener::literal_action(pfx, a)).collect();
+            let equivariant = matches!(diff_schemas(&lb, &lm), Ok(d) if d.actions == lit_plan);
+            let with_prefix = p.clone().with_prefix(pfx).actions;
+            let wp_literal = with_prefix == lit_plan;
+            let first_diff = with_prefix.iter().zip(lit_plan.iter()).position(|(x, y)| x != y);
+            oracles.insert("c14".into(), json!({"ok": equivariant && wp_literal, "equivariant": equivariant, "with_prefix_is_literal": wp_literal, "first_differing_action": first_diff}));
         }
         // O-C07: self diff empty, normalisation idempotent
         let self_empty = matches!(diff_schemas(models, models), Ok(p) if p.actions.is_empty()) || models.iter().any(|t| t.normalize().is_err());
